@@ -4,7 +4,7 @@
 set -u
 cd "$(dirname "$0")"
 export GOFLAGS=-mod=mod GOPROXY=off GOSUMDB=off GOTOOLCHAIN=local GOWORK=off
-if [ ! -x bin/gopkgcheck ] || [ -n "$(find checker -newer bin/gopkgcheck \( -name '*.go' -o -name 'known_calls.txt' \) 2>/dev/null | head -1)" ]; then
+if [ ! -x bin/gopkgcheck ] || [ -n "$(find checker -newer bin/gopkgcheck \( -name '*.go' -o -name 'known_calls.txt' -o -name 'rule_floor.txt' \) 2>/dev/null | head -1)" ]; then
   (cd checker && go build -o ../bin/gopkgcheck .) || { echo "cannot build analyser" >&2; exit 2; }
 fi
 exec bin/gopkgcheck -prop "$1" -tier "${2:-quick}" -repo "${VERIF_REPO:-/repo}" -verif "$(pwd)"
